@@ -855,12 +855,10 @@ func (e *Exec) shamt(k Term) Term {
 	if k.Sort == SBV64 {
 		return k
 	}
-	if n, ok := litVal(k); ok {
-		if n > 64 {
-			n = 64
-		}
-		return BVLit(uint64(n))
+	if n, ok := litVal(k); ok && (n < 0 || n >= 64) {
+		return BVLit(64)
 	}
+	// literal amounts also go through shamt so that the bit-of-shift facts (patterns over (shamt k)) apply
 	e.needShamt()
 	return mk(SBV64, "shamt", k)
 }
